@@ -229,6 +229,7 @@ def run_wallets(ctx, nets):
     configs = [('hd-segwit', dict(witness_type='segwit')), ('hd-legacy', dict(witness_type='legacy')), ('hd-p2sh-segwit', dict(witness_type='p2sh-segwit'))]
     from bitcoinlib.keys import Key
     configs += [('single-segwit', dict(witness_type='segwit', scheme='single')), ('single-legacy', dict(witness_type='legacy', scheme='single'))]
+    configs += [('account-key-segwit', dict(witness_type='segwit', from_account_key=True)), ('account-key-legacy', dict(witness_type='legacy', from_account_key=True))]
     for name, kw in configs:
         seed = bytes(rng.randrange(256) for _ in range(32))
         single = kw.get('scheme') == 'single'
@@ -237,6 +238,12 @@ def run_wallets(ctx, nets):
             master = HDKey(Key(int.from_bytes(seed, 'big') % (2 ** 255) + 1), network='bitcoin', witness_type=kw['witness_type'], key_type='single')
             w = Wallet.create('c16_' + name, keys=Key(master.secret), network='bitcoin', db_uri=uri, **kw)
             keys = [w.get_key()]
+        elif kw.get('from_account_key'):
+            # a wallet around the PRIVATE account-level extended key (depth 3): that key is its "master"
+            root = HDKey.from_seed(seed, network='bitcoin', witness_type=kw['witness_type'])
+            master = root.subkey_for_path("m/%d'/0'/0'" % {'legacy': 44, 'p2sh-segwit': 49, 'segwit': 84}[kw['witness_type']])
+            w = Wallet.create('c16_' + name, keys=master.wif_private(), network='bitcoin', db_uri=uri, witness_type=kw['witness_type'])
+            keys = [w.get_key(), w.new_key(), w.new_key_change()]
         else:
             master = HDKey.from_seed(seed, network='bitcoin', witness_type=kw['witness_type'])
             w = Wallet.create('c16_' + name, keys=master, network='bitcoin', db_uri=uri, **kw)
@@ -262,6 +269,8 @@ def run_wallets(ctx, nets):
             'WalletKey.repr': [repr(k_).encode() for k_ in keys[:2]],
             'WalletKey.as_dict': blobs_of([k.as_dict() for k in keys]),
             'public_master.wif': [w.public_master().wif.encode()],
+            'Wallet.wif()': blobs_of(w.wif()),
+            'Wallet.wif(is_private=False)': blobs_of(w.wif(is_private=False)),
             'public_master object': blobs_of(w.public_master()),
             'addresslist': blobs_of(w.addresslist()),
             # the dictionary export of key selections: selecting the private keys is not asking for their private fields
@@ -310,6 +319,7 @@ def run_wallets(ctx, nets):
             continue
         # watch-only wallet from the account public key
         pubwif = w.public_master().wif
+        kw = {k_: v_ for k_, v_ in kw.items() if k_ != 'from_account_key'}
         w2 = Wallet.create('c16_watch_' + name, keys=pubwif, network='bitcoin', db_uri=uri, **kw)
         w2.get_key()
         for vname, blobs in (('watch-only as_dict', blobs_of(w2.as_dict())), ('watch-only keys repr', [repr(w2.keys()).encode()]),
